@@ -31,6 +31,8 @@ type walkInput struct {
 	Names  []string   `json:"names,omitempty"` // SubDir: names of the sub-roots (each gets the same tree)
 	// Prewalk: the FS value has been walked once before the walk that is judged
 	Prewalk bool `json:"prewalk,omitempty"`
+	// Reset: the FS is wrapped in WithHardlinkReset (an unfiltered view: the wrapper must change nothing)
+	Reset bool `json:"reset,omitempty"`
 }
 
 func statOf(fi gofs.FileInfo) *types.Stat {
@@ -115,6 +117,10 @@ func runWalk(c *Ctx, caseNo int, in walkInput) (vt.Ev, error) {
 		f, err := fsutil.NewFS(root)
 		if err != nil {
 			return nil, err
+		}
+		if in.Reset {
+			// the library's own wrapper asks every entry for its stat and hands the same entry on: the consumer asks again
+			f = fsutil.WithHardlinkReset(f)
 		}
 		target := "/"
 		if in.API == "FSsub" {
@@ -273,6 +279,7 @@ func Walk(c *Ctx) error {
 	for i := range inputs {
 		if inputs[i].API == "FS" || inputs[i].API == "FSsub" {
 			inputs[i].Prewalk = i%2 == 0
+			inputs[i].Reset = i%3 == 0
 		}
 	}
 	c.Stats.Rule = "one case = one walk (Walk / WalkDir / FS.Walk root or sub-target / SubDirFS) of a materialised tree; non-trivial = the tree has a directory with contents and either a hard-link group or names that sort differently bytewise vs path-wise; distinct by (tree, api)"
@@ -313,6 +320,8 @@ type filterInput struct {
 	Exc     []string   `json:"exc"`
 	MapKind string     `json:"mapKind"` // "" | rewrite | files | all
 	MapSeed int64      `json:"mapSeed"`
+	// Unreadable: (empty) directories that cannot be listed while the walk runs (mode 0000, walker without CAP_DAC_*)
+	Unreadable []string `json:"unreadable,omitempty"`
 	API     string     `json:"api"`
 	// Follow: FollowPaths of the filter; their resolution is appended to the include list (in that order)
 	Follow []string `json:"follow,omitempty"`
@@ -488,6 +497,20 @@ func runFilter(c *Ctx, caseNo int, in filterInput) (vt.Ev, error) {
 	}
 	var werr error
 	ctx := context.Background()
+	if len(in.Unreadable) > 0 {
+		for _, u := range in.Unreadable {
+			os.Chmod(filepath.Join(root, u), 0)
+		}
+		if err := setReadCaps(false); err != nil {
+			return nil, nil
+		}
+		defer func() {
+			setReadCaps(true)
+			for _, u := range in.Unreadable {
+				os.Chmod(filepath.Join(root, u), 0755)
+			}
+		}()
+	}
 	if in.API == "WalkDir" {
 		werr = fsutil.WalkDir(ctx, root, opt, func(p string, d gofs.DirEntry, err error) error {
 			if err != nil {
@@ -664,9 +687,39 @@ func Filter(c *Ctx) error {
 			}
 		}
 	}
+	// entry names that contain pattern metacharacters, named by patterns that escape them
+	{
+		mkf := func(p string) model.Entry { e := newFile(c.Rand, genOpts{}); e.Path = p; return e }
+		dr := func(p string) model.Entry { return model.Entry{Path: p, Type: "dir", Perm: 0755, Mtime: uniqueMtime()} }
+		mt := model.Tree{dr("a*b"), mkf("a*b/c"), mkf("a*b/d"), dr("axb"), mkf("axb/c"), dr("q?"), mkf("q?/c"), dr("q?/s[1]"), mkf("q?/s[1]/f"), mkf("z")}
+		mt.Sort()
+		for _, l := range [][]string{{`a\*b/c`}, {`a\*b`}, {`q\?/c`, "z"}, {`q\?/s\[1]/f`}, {`a\*b/c`, "axb"}, {`a\*b`, `!a\*b/d`}, {`a*b/c`}, {`q?/c`}} {
+			inputs = append(inputs, filterInput{Tree: mt, Inc: l, API: "Walk"}, filterInput{Tree: mt, Exc: l, API: "WalkDir"})
+		}
+	}
+	// a directory the walker may not list (as an unprivileged sender meets it) that the filter excludes, with an exception
+	// pattern or a wildcard in the list so that it cannot be pruned up front: the filtered view is still delivered
+	{
+		mkf := func(p string) model.Entry { e := newFile(c.Rand, genOpts{}); e.Path = p; return e }
+		dr := func(p string) model.Entry { return model.Entry{Path: p, Type: "dir", Perm: 0755, Mtime: uniqueMtime()} }
+		ut := model.Tree{dr("bar"), dr("foo"), dr("foo/bar"), mkf("foo/x"), mkf("z")}
+		ut.Sort()
+		for k, l := range [][]string{{"**/bar", "!foo/bar/baz"}, {"*/bar", "bar", "!foo/bar/baz"}, {"foo/bar", "bar", "!foo/bar/baz"}, {"**/bar"}, {"bar", "foo/bar"}} {
+			inputs = append(inputs, filterInput{Tree: ut, Exc: l, API: []string{"Walk", "WalkDir"}[k%2], Unreadable: []string{"bar", "foo/bar"}})
+		}
+		for k, l := range [][]string{{"z", "foo/x"}, {"**/x"}, {"*/x", "z"}} {
+			inputs = append(inputs, filterInput{Tree: ut, Inc: l, API: []string{"Walk", "WalkDir"}[k%2], Unreadable: []string{"bar", "foo/bar"}})
+		}
+	}
 	for _, p := range single {
 		inputs = append(inputs, filterInput{Tree: full, Inc: []string{p}, API: "Walk"})
 		inputs = append(inputs, filterInput{Tree: full, Exc: []string{p}, API: "WalkDir"})
+	}
+	// map decisions on directories that are only reported as ancestors of what an include pattern keeps
+	for k, p := range single {
+		for ms := 0; ms < 3; ms++ {
+			inputs = append(inputs, filterInput{Tree: full, Inc: []string{p}, API: []string{"Walk", "WalkDir"}[(k+ms)%2], MapKind: "all", MapSeed: int64(1000*k + ms)})
+		}
 	}
 	pairs := single
 	if !c.Thorough() && len(pairs) > 26 {
@@ -677,6 +730,11 @@ func Filter(c *Ctx) error {
 			if c.Thorough() || c.Rand.Intn(3) == 0 {
 				inputs = append(inputs, filterInput{Tree: full, Inc: []string{x, "!" + y}, API: "Walk"})
 				inputs = append(inputs, filterInput{Tree: full, Exc: []string{x, "!" + y}, API: "Walk"})
+				// redundant entries: the same pattern again after the exception
+				if c.Thorough() || c.Rand.Intn(3) == 0 {
+					inputs = append(inputs, filterInput{Tree: full, Inc: []string{x, "!" + y, x}, API: "WalkDir"})
+					inputs = append(inputs, filterInput{Tree: full, Exc: []string{x, "!" + y, x}, API: "WalkDir"})
+				}
 			}
 		}
 	}
@@ -696,10 +754,12 @@ func Filter(c *Ctx) error {
 		case 1:
 			in.MapKind = "files"
 		case 2:
-			// map decisions on directories too: only without patterns (every entry is selected
-			// directly, so no ancestor is ever emitted lazily)
+			// map decisions on directories too; half of them without patterns (every entry is selected directly), half
+			// with (directories that are only reported as ancestors of a kept entry are consulted lazily)
 			in.MapKind = "all"
-			in.Inc, in.Exc = nil, nil
+			if c.Rand.Intn(2) == 0 {
+				in.Inc, in.Exc = nil, nil
+			}
 		}
 		inputs = append(inputs, in)
 	}
